@@ -457,8 +457,10 @@ func (ef *Filter) filterField(ctx context.Context, v reflect.Value, filterOverri
 				// okay, we've dealt with the "Taggable" things, let's check for other
 				// fields that need to be filtered, but be sure to ignore taggable
 				// on the next recursion or will be in an infinite loop
-				opt = append(opt, withIgnoreTaggable())
-				if err := ef.filterField(ctx, field, filterOverrides, tm, opt...); err != nil {
+				// (a copy of the options, so the fields which follow this one are
+				// not filtered with taggable ignored as well)
+				taggableOpt := append(append(make([]Option, 0, len(opt)+1), opt...), withIgnoreTaggable())
+				if err := ef.filterField(ctx, field, filterOverrides, tm, taggableOpt...); err != nil {
 					return fmt.Errorf("%s: %w", op, err)
 				}
 			}
